@@ -460,6 +460,19 @@ func TestC19(t *testing.T) {
 				t.Fatalf("C19 %s: not equal to a mapping with gamma*%v and the same offset", spec, f)
 			}
 		}
+		// offsets around the tolerance of Equals (incl. exactly 0 against tiny non-zero ones): whatever the verdict, it
+		// must be the same in both directions
+		for _, o2 := range []float64{offset * (1 + 1e-13), offset * (1 - 3e-13), offset + 1e-13, offset - 5e-324, offset + 1e-12, offset + 2e-12, 1e-13, -1e-14, 5e-324, 0} {
+			if o, err := (gen.MapSpec{Kind: spec.Kind, Gamma: gamma, Offset: o2}).Build(); err == nil {
+				symmetric(o, fmt.Sprintf("offset %v vs %v", offset, o2))
+				if z, err := (gen.MapSpec{Kind: spec.Kind, Gamma: gamma, Offset: 0}).Build(); err == nil {
+					if z.Equals(o) != o.Equals(z) {
+						t.Fatalf("C19 %s: Equals is not symmetric between offsets 0 and %v: %v vs %v", spec, o2, z.Equals(o), o.Equals(z))
+					}
+				}
+				cl.label("pair:offset-near-tolerance")
+			}
+		}
 		// clearly different offsets
 		for _, d := range []float64{1, -1, 0.5, 1e-6 * math.Max(1, math.Abs(offset)), -offset} {
 			o, err := gen.MapSpec{Kind: spec.Kind, Gamma: gamma, Offset: offset + d}.Build()
